@@ -22,7 +22,7 @@ import ast
 import copy
 from typing import Dict, List, Optional, Set, Tuple
 
-from .model import AnalysisError, FuncInfo, Program, unparse
+from .model import AnalysisError, FuncInfo, Program, accessor_value, unparse
 
 # private functions that rules name explicitly (the mechanism anchors of properties.jsonl and DESIGN section 3)
 ANCHORS = {
@@ -234,6 +234,8 @@ class Inliner:
         for n in ast.walk(g.node):
             if isinstance(n, (ast.Yield, ast.YieldFrom, ast.Global, ast.Nonlocal)):
                 return None
+        if not call.args and not call.keywords and accessor_value(g) is not None:
+            return None   # a zero-argument accessor names a location: expression canonicalisation handles it
         return g
 
     def _bind(self, g: FuncInfo, call: ast.Call, caller_names: Set[str]) -> Optional[Tuple[List[ast.stmt], Dict[str, ast.expr], Dict[str, str]]]:
